@@ -362,6 +362,12 @@ class Tr:
                 self.opaque.append("ForStmt:cond")
                 return ["SOpaque " + cq_str("ForStmt:cond")]
             return ["SFor %s %s %s" % (cq_str(cont[0]), cq_str(cont[1]), self.block(self.stmts(inner[4])))]
+        if k == "WhileStmt":
+            inner = [c for c in n.get("inner", []) if c.get("kind")]
+            if len(inner) >= 2:
+                return ["SWhile (%s) %s" % (self.expr(inner[0]), self.block(self.stmts(inner[-1])))]
+        if k in ("ContinueStmt", "BreakStmt") and k == "BreakStmt":
+            return ["SOpaque " + cq_str("break")]
         if k == "ContinueStmt":
             return ["SContinue"]
         if k == "ReturnStmt":
